@@ -84,4 +84,28 @@ theorem C15_nrgba_opaque (r g b : Nat) : nrgbaRGBA r g b 255 = ⟨r * 257, g * 2
 theorem C15_nrgba_transparent (r g b : Nat) : nrgbaRGBA r g b 0 = ⟨0, 0, 0, 0⟩ := by
   unfold nrgbaRGBA; simp
 
+/-- **`draw.Draw` into an `*image.NRGBA` is the colour model on every valid premultiplied colour.**  The generic helper path
+(`draw.Draw`, which writes through `SetRGBA64`) and `color.NRGBAModel.Convert` agree whenever `r, g, b ≤ a` — for every such
+16-bit colour. -/
+theorem C15_draw_nrgba_is_model_on_valid (c : Px) (hr : c.r ≤ c.a) (hg : c.g ≤ c.a) (hb : c.b ≤ c.a) (ha : c.a ≤ 0xffff) :
+    toNRGBA8Draw c = toNRGBA8 c := by
+  unfold toNRGBA8Draw toNRGBA8
+  by_cases h1 : c.a = 0xffff
+  · have e1 : c.r / 256 % 256 = c.r / 256 := Nat.mod_eq_of_lt (by omega)
+    have e2 : c.g / 256 % 256 = c.g / 256 := Nat.mod_eq_of_lt (by omega)
+    have e3 : c.b / 256 % 256 = c.b / 256 := Nat.mod_eq_of_lt (by omega)
+    simp [h1, e1, e2, e3]
+  · by_cases h0 : c.a = 0
+    · have r0 : c.r = 0 := by omega
+      have g0 : c.g = 0 := by omega
+      have b0 : c.b = 0 := by omega
+      simp [h0, r0, g0, b0]
+    · simp [h1, h0]
+
+/-- …and they differ on a stored pixel with alpha 0 and a non-zero colour (legal to store, produced by no decoder):
+`SetRGBA64` keeps the colour bytes, the colour model zeroes them.  The helper, being `draw.Draw`, does what `draw.Draw` does. -/
+theorem C15_draw_nrgba_keeps_colour_at_alpha_zero :
+    toNRGBA8Draw ⟨0x3f3f, 0xecec, 0xe6e6, 0⟩ = ⟨0x3f, 0xec, 0xe6, 0⟩ ∧ toNRGBA8 ⟨0x3f3f, 0xecec, 0xe6e6, 0⟩ = ⟨0, 0, 0, 0⟩ := by
+  decide
+
 end Prism.Img
